@@ -44,9 +44,12 @@ func (p *Program) Flatten(f *Func) *Func {
 	}
 	fl := &flattener{p: p, info: f.Info(), pkg: f.Pkg.Types, stack: map[*Func]bool{f: true}, count: map[*Func]int{}, inlined: map[*Func]bool{}}
 	// the several returns behind a single-exit spelling (see tailReturns)
-	body0, tch := tailReturns(f.Info(), f.Body)
+	// calls of one-line unexported getters / predicates as the expression they return (see inlineGetters)
+	bodyG, gch := p.inlineGetters(f.Info(), f.Pkg.Types, f.Body)
+	body0, tch := tailReturns(f.Info(), bodyG)
+	tch = tch || gch
 	// hand-written element loops as the range loops they stand for (see rangeLoops)
-	if lb, lch := rangeLoops(f.Info(), f.Pkg.Types, f.Body, body0); lch {
+	if lb, lch := rangeLoops(f.Info(), f.Pkg.Types, bodyG, body0); lch {
 		body0, tch = lb, true
 	}
 	// first pass: how often would each helper be inlined
